@@ -77,6 +77,8 @@ def run(ctx):
             if part.get("gen_programs") and "gen" in g:
                 summary["gen_programs"] = part["gen_programs"]
                 summary["gen_constructs"] = part.get("gen_constructs")
+                summary["gen_random_programs"] = part.get("gen_random_programs")
+                summary["gen_shape_programs"] = part.get("gen_shape_programs")
         if ran_all or summary["comparisons"]:
             if have_kernel and ok_make:
                 for shard, ok, o in vlib.run_case_shards(ctx, cases, pattern="c05_pass_*.v"):
@@ -122,7 +124,9 @@ def run(ctx):
         "evaluations": summary.get("comparisons", 0) + summary.get("reference_checked", 0),
         "programs": summary.get("gen_programs", 0),
         "distinct_nontrivial": summary.get("items", 0),
-        "rule": "an item = (function or #[test], argument vector) of one of the legs (generated programs of the C01 "
+        "rule": "an item = (function or #[test], argument vector) of one of the legs (generated programs: the enumerated "
+                "pass-shape family of harness/h01/src/shapes.rs - trigger patterns and near misses of every optimisation "
+                "pass, run-time and literal operands - plus typed random programs of the C01 "
                 "generator; every function of /repo/examples with felt-sized scalar parameters and a pointer-free "
                 "result on 7 small argument vectors; every non-ignored #[test] of /repo/tests/bug_samples with a "
                 "pointer-free result and not observing gas; thorough: the core library's tests).  Each item is run "
@@ -136,6 +140,8 @@ def run(ctx):
                                                    "nonlinear_solver_not_applicable", "configs", "run_errors")}
                      for k, v in legs.items()},
             "gen_constructs": summary.get("gen_constructs"),
+            "gen_random_programs": summary.get("gen_random_programs"),
+            "gen_shape_programs": summary.get("gen_shape_programs"),
             "pass_cases": summary.get("pass_cases"),
         },
         "traces_validated_against_impl": summary.get("pass_cases", {}).get("functions_where_pass_fires", 0)
